@@ -70,14 +70,14 @@ Definition apply_setting (acc : vset * option str) (p : skey * str) : vset * opt
   | KSize => (set_size (snd p) s, reg) | KVertical => (set_vertical (snd p) s, reg) | KRegion => (s, Some (snd p))
   end.
 Definition setting_ok (regs : list (str * vregion)) (p : skey * str) : Prop :=
-  sval_ok (snd p) = true /\ snd p <> [] /\
+  sval_ok (snd p) = true /\
   match fst p with KRegion => exists rg, aget (snd p) regs = Some rg /\ rg_id rg = snd p | _ => True end.
 
 Lemma cue_settings_any regs sets : forall s reg, Forall (setting_ok regs) sets ->
   cue_settings (map sword sets) regs s reg = Ok (fold_left apply_setting sets (s, reg)).
 Proof.
   induction sets as [|[k v] sets IH]; intros s reg HF; [reflexivity|].
-  inversion HF as [|? ? (Hv & _ & Hr) HF']; subst. cbn [fst snd] in *. destruct (sval_ok_parts v Hv) as (_ & N58 & _).
+  inversion HF as [|? ? (Hv & Hr) HF']; subst. cbn [fst snd] in *. destruct (sval_ok_parts v Hv) as (_ & N58 & _).
   cbn [map fold_left]. unfold sword at 1. cbn [fst snd]. change (skey_name k ++ [58] ++ v) with (skey_name k ++ 58 :: v).
   rewrite cue_part_kv; [|destruct k; cbn [skey_name]; no58 | exact N58].
   destruct k; cbn [skey_name apply_setting fst snd];
@@ -137,7 +137,7 @@ Proof.
   induction sets as [|p sets IH]; intros seps Hlen Hseps Hsets.
   - destruct seps; [|discriminate]. cbn [map combine ws_words concat]. repeat split; try constructor; try reflexivity; try (intros []).
   - destruct seps as [|sep seps]; [discriminate|]. cbn [length] in Hlen. injection Hlen as Hlen.
-    inversion Hseps as [|? ? (S1 & S2 & S3) Hseps']; subst. inversion Hsets as [|? ? (V1 & V2 & V3) Hsets']; subst.
+    inversion Hseps as [|? ? (S1 & S2 & S3) Hseps']; subst. inversion Hsets as [|? ? (V1 & V3) Hsets']; subst.
     destruct (IH seps Hlen Hseps' Hsets') as (I1 & I2 & I3 & I4 & I5 & I6 & _).
     destruct (sword_facts p V1) as (Pw & W62).
     cbn [map combine]. rewrite ws_words_cons. cbn [fst snd].
